@@ -208,6 +208,8 @@ class _APEv2Data(object):
         # exclude the footer from size
         if self.footer is not None:
             self.size -= 32
+            if self.size < 0:
+                raise error("APE tag size smaller than its footer")
 
     def __fix_brokenness(self, fileobj):
         # Fix broken tags written with PyMusepack.
